@@ -208,7 +208,9 @@ def emit(r, rng, name, policy, reg_style, flavours, leave_out=None):
     # classes
     for c in range(r.n):
         bases = ", ".join(("virtual " if vb[b] else "") + cname(b) for b in r.bases[c])
-        L.append("struct %s%s {" % (cname(c), (" : " + bases) if bases else ""))
+        is_leaf = not any(der[d][c] and d != c for d in range(r.n))
+        final_kw = " final" if is_leaf and rng.random() < (0.7 if c == leave_out else 0.4) else ""
+        L.append("struct %s%s%s {" % (cname(c), final_kw, (" : " + bases) if bases else ""))
         L.append("    int tag%d = %d;" % (c, 1000 + c))
         if not r.bases[c]:
             L.append("    virtual ~%s() {}" % cname(c))
@@ -528,12 +530,19 @@ def emit(r, rng, name, policy, reg_style, flavours, leave_out=None):
                             pre.append("            std::shared_ptr<%s> s_%d = so%d;" % (B, vi, c))
                             args.append("s_%d" % vi)
                         elif k in ("vp", "cvp"):
-                            how = rng.choice(["base-ref", "exact"])
-                            pre.append("            virtual_ptr<%s%s> v_%d(%s);" % (B, pa, vi, ("static_cast<%s&>(o%d)" % (B, c)) if how == "base-ref" else "o%d" % c))
+                            how = rng.choice(["base-ref", "exact", "final", "final_virtual_ptr"]) if c == leave_out else "base-ref"
+                            if how == "final":
+                                pre.append("            auto f_%d = virtual_ptr<%s%s>::final(o%d); virtual_ptr<%s%s> v_%d(f_%d);" % (vi, cname(c), pa, c, B, pa, vi, vi))
+                            elif how == "final_virtual_ptr":
+                                pre.append("            auto f_%d = final_virtual_ptr%s(o%d); virtual_ptr<%s%s> v_%d(f_%d);" % (vi, ("<%s>" % pol) if pol else "", c, B, pa, vi, vi))
+                            else:
+                                pre.append("            virtual_ptr<%s%s> v_%d(%s);" % (B, pa, vi, ("static_cast<%s&>(o%d)" % (B, c)) if how == "base-ref" else "o%d" % c))
                             args.append("v_%d" % vi)
                         else:
-                            how = rng.choice(["base-sp", "exact-sp"])
-                            if how == "base-sp":
+                            how = rng.choice(["base-sp", "exact-sp", "final-sp"]) if c == leave_out else "base-sp"
+                            if how == "final-sp":
+                                pre.append("            auto f_%d = virtual_shared_ptr<%s%s>::final(std::shared_ptr<%s>(so%d)); virtual_shared_ptr<%s%s> v_%d(f_%d);" % (vi, cname(c), pa, cname(c), c, B, pa, vi, vi))
+                            elif how == "base-sp":
                                 pre.append("            std::shared_ptr<%s> s_%d = so%d; virtual_shared_ptr<%s%s> v_%d(s_%d);" % (B, vi, c, B, pa, vi, vi))
                             else:
                                 pre.append("            virtual_shared_ptr<%s%s> v_%d(so%d);" % (B, pa, vi, c))
@@ -550,6 +559,23 @@ def emit(r, rng, name, policy, reg_style, flavours, leave_out=None):
                 main.append("        } catch (unknown_class_error& e) { reported = true; rt = e.type; } catch (resolution_error&) {}")
                 main.append('        CHECK(reported && rt == %s::static_type<%s>() && g_ran_def == -1, "C15:unregistered-class-not-reported:%s", "m%d: object of the unregistered class %s at virtual position %d: reported=%%d ran def %%d", (int)reported, g_ran_def);' % (P, cname(leave_out), m["kinds"][i], mi, cname(leave_out), i))
                 main.append("    }")
+    if leave_out is not None and not r.abstract[leave_out]:
+        # virtual_ptr construction alone must report the unregistered class, on every route
+        X = cname(leave_out)
+        pa = (", " + pol) if pol else ""
+        probes = [("exact-type", "virtual_ptr<%s%s> p(o%d); (void)p;" % (X, pa, leave_out)),
+                  ("final", "auto p = virtual_ptr<%s%s>::final(o%d); (void)p;" % (X, pa, leave_out)),
+                  ("final_virtual_ptr", "auto p = final_virtual_ptr%s(o%d); (void)p;" % (("<%s>" % pol) if pol else "", leave_out)),
+                  ("shared-exact-type", "virtual_shared_ptr<%s%s> p(so%d); (void)p;" % (X, pa, leave_out)),
+                  ("shared-final", "auto p = virtual_shared_ptr<%s%s>::final(std::shared_ptr<%s>(so%d)); (void)p;" % (X, pa, X, leave_out))]
+        for b in range(r.n):
+            if b != leave_out and der[leave_out][b]:
+                probes.append(("from-base-reference", "virtual_ptr<%s%s> p(static_cast<%s&>(o%d)); (void)p;" % (cname(b), pa, cname(b), leave_out)))
+                probes.append(("shared-from-base", "std::shared_ptr<%s> sb = so%d; virtual_shared_ptr<%s%s> p(sb); (void)p;" % (cname(b), leave_out, cname(b), pa)))
+                break
+        for pname, code in probes:
+            main.append("    { bool reported = false; type_id rt = 0; try { %s } catch (unknown_class_error& e) { reported = true; rt = e.type; } catch (method_table_error&) {}" % code)
+            main.append('      CHECK(reported && rt == %s::static_type<%s>(), "C15:virtual_ptr-to-unregistered-class-constructed:%s", "constructing a virtual_ptr to an object of the unregistered class %s (%s): reported=%%d", (int)reported); }' % (P, X, pname, X, pname))
     if leave_out is None:
         main.append('    CHECK((report.not_implemented != 0) == %s, "C17:report:not_implemented", "report.not_implemented = %%zu", report.not_implemented);' % ("true" if nd_any else "false"))
         main.append('    CHECK((report.ambiguous != 0) == %s, "C17:report:ambiguous", "report.ambiguous = %%zu", report.ambiguous);' % ("true" if amb_any else "false"))
